@@ -18,7 +18,11 @@ EXTENDS Integers, Sequences, TLC, Json
 
 CONSTANTS Dirs, Inputs, FailingInputs, Dump
 Entries == {"cli", "client", "mc", "direct"}
-Args == {"none", "relative", "absolute", "relative_plain", "absolute_plain"}    \* _plain: a name without extension under a directory with a dot in its name
+Args == {"none", "relative", "absolute", "relative_plain", "absolute_plain", "relative_tilde", "relative_link"}
+  \* _plain: a name without extension under a directory with a dot in its name
+  \* _tilde: a name in the start directory whose first character is "~" (a legal file name; no home-directory expansion is documented)
+  \* _link : the requested name exists as a symbolic link to a file elsewhere; the report is written through it, the JSON goes next to
+  \*         the requested name (the link's target itself is not counted as a separate file)
 
 Hists == {"cold", "warm"}
 
@@ -32,6 +36,8 @@ OutPath(e, a, d) ==
     [] e = "cli" /\ a = "absolute" -> [out |-> <<"abs", "case.out">>, json |-> <<"abs", "case.json">>]
     [] e = "cli" /\ a = "relative_plain" -> [out |-> <<d, "rel.v2", "case">>, json |-> <<d, "rel.v2", "case.json">>]
     [] e = "cli" /\ a = "absolute_plain" -> [out |-> <<"abs.d", "case">>, json |-> <<"abs.d", "case.json">>]
+    [] e = "cli" /\ a = "relative_tilde" -> [out |-> <<d, "~case.out">>, json |-> <<d, "~case.json">>]
+    [] e = "cli" /\ a = "relative_link"  -> [out |-> <<d, "rel", "latest.out">>, json |-> <<d, "rel", "latest.json">>]
     [] OTHER                       -> [out |-> <<"tmp", "result.out">>, json |-> <<"tmp", "result.json">>]
 
 Init == /\ pc = "start" /\ entry \in Entries /\ arg \in Args /\ dir \in Dirs /\ input \in Inputs
